@@ -844,7 +844,9 @@ class C18(Property):
             return False
         if any(reaches_itself(i) for i in by):
             features.add("closed-course")
-        for _ in range(rng.randint(1, 5)):
+        # (with lanelet assignment switched on: denser traffic, so that neighbouring lanelets carry different obstacles
+        # at the same time step)
+        for _ in range(rng.randint(3, 7) if cfg.get("assignment") else rng.randint(1, 5)):
             role = rng.weighted(["static", "dynamic", "dynamic_nopred", "dynamic_set", "env", "phantom"],
                                 [2, 6, 1, 1.5, 1, 1])
             kinds = ("rect", "circ", "poly", "group") if rng.chance(0.2) else ("rect", "circ", "poly")
